@@ -409,15 +409,42 @@ def rule_d(ctx: Ctx) -> None:
                             # a fresh container built *from* the state ({..: .. for ..}, dict(x), list(x)) is not the state
                             tainted.add(tg.id)
                             changed = True
+            # flow refinement: a name whose textually nearest preceding binding is a fresh value (dict(x), a comprehension, ...) is not
+            # the registered object at that point even if an earlier binding was
+            binds: dict[str, list[tuple[int, ast.AST | None]]] = {}
+            for st in walk_no_nested(md):
+                if isinstance(st, ast.Assign):
+                    for tg in st.targets:
+                        if isinstance(tg, ast.Name):
+                            binds.setdefault(tg.id, []).append((st.lineno, st.value))
+                elif isinstance(st, ast.AnnAssign) and isinstance(st.target, ast.Name) and st.value is not None:
+                    binds.setdefault(st.target.id, []).append((st.lineno, st.value))
+                elif isinstance(st, (ast.For, ast.comprehension)):
+                    for x_ in ast.walk(st.target):
+                        if isinstance(x_, ast.Name):
+                            binds.setdefault(x_.id, []).append((getattr(st, "lineno", getattr(st.target, "lineno", 0)), None))
+
+            def live_taint(e: ast.AST, line: int) -> bool:
+                root = e
+                while isinstance(root, (ast.Attribute, ast.Subscript)):
+                    root = root.value
+                if isinstance(root, ast.Name) and root.id in binds:
+                    prev = [b for b in binds[root.id] if b[0] <= line]
+                    if prev:
+                        ln, val = max(prev, key=lambda b: b[0])
+                        if val is not None and not from_state(val, tainted):
+                            return False
+                return from_state(e, tainted)
+
             bad = None
             for x in walk_no_nested(md):
-                if isinstance(x, ast.Subscript) and isinstance(x.ctx, (ast.Store, ast.Del)) and from_state(x.value, tainted):
+                if isinstance(x, ast.Subscript) and isinstance(x.ctx, (ast.Store, ast.Del)) and live_taint(x.value, x.lineno):
                     # the memo itself (self._find_cache[key] = ...) is not registered state
                     if is_self_attr(x.value) and x.value.attr not in STATE_FIELDS:
                         continue
                     bad = (x, f"stores into {norm(x.value, 40)}")
                     break
-                if isinstance(x, ast.Call) and isinstance(x.func, ast.Attribute) and x.func.attr in MUTATORS and x.func.attr not in ("get",) and from_state(x.func.value, tainted):
+                if isinstance(x, ast.Call) and isinstance(x.func, ast.Attribute) and x.func.attr in MUTATORS and x.func.attr not in ("get",) and live_taint(x.func.value, x.lineno):
                     if is_self_attr(x.func.value) and x.func.value.attr not in STATE_FIELDS:
                         continue
                     bad = (x, f"calls .{x.func.attr}() on {norm(x.func.value, 40)}")
